@@ -446,6 +446,39 @@ theorem sim_vrem (g) {st A} (h : R st A) (o : Nat) (v : Val) : Sim g st A (.vrem
     simp only [Sim, step, astep, hlook, hA, hwin, e]
     exact ⟨this, trivial⟩
 
+theorem sim_vsl (g) {st A} (h : R st A) (o : Nat) (r : RangeK) : Sim g st A (.vsl o r) := by
+  cases hA : A[o]? with
+  | none => exact sim_ro h (by simp [step, h.look_none hA]) (by simp [astep, hA]) (by simp [step, astep, h.look_none hA, hA])
+  | some al =>
+    obtain ⟨s, a, hs, hheap, hlook, hfit, hlen, hwin, hcap⟩ := h.look_some hA
+    have hl : al.xs.length = s.len := by rw [← hwin]; exact window_length hfit hlen
+    cases hb : r.bounds s.len with
+    | mk lo hi =>
+      cases hi1 : normIndex lo s.len with
+      | none =>
+        exact sim_ro h (by simp [step, hlook, hb, hi1]) (by simp [astep, hA, hl, hb, hi1])
+          (by simp [step, astep, hlook, hA, hl, hb, hi1])
+      | some i =>
+        cases hi2 : normIndex hi s.len with
+        | none =>
+          exact sim_ro h (by simp [step, hlook, hb, hi1, hi2]) (by simp [astep, hA, hl, hb, hi1, hi2])
+            (by simp [step, astep, hlook, hA, hl, hb, hi1, hi2])
+        | some j =>
+          obtain ⟨h1, h2⟩ := h.alloc [] 0
+          have hlast : (A ++ [(⟨[], max 0 ([] : List Val).length⟩ : AL)])[A.length]? = some ⟨[], 0⟩ := by
+            simp
+          have hid : (allocObj st [] 0).2 = A.length := h2
+          obtain ⟨st2, e2, hr2⟩ := appendEach_sim g (((window s a).drop i).take (j + 1 - i)) h1 hlast
+          rw [← hid] at e2
+          rw [hwin] at e2 hr2
+          have : (A ++ [(⟨[], max 0 ([] : List Val).length⟩ : AL)]).set A.length
+              (apushEach g ⟨[], 0⟩ ((al.xs.drop i).take (j + 1 - i))) =
+              A ++ [apushEach g ⟨[], 0⟩ ((al.xs.drop i).take (j + 1 - i))] := by
+            simp
+          rw [this] at hr2
+          simp only [Sim, step, astep, hlook, hA, hl, hb, hi1, hi2, hwin, e2]
+          exact ⟨hr2, by rw [hid]⟩
+
 /-- every slice-free operation simulates -/
 theorem sim_all (g) {st A} (h : R st A) (op : Op) (hsf : op.sliceFree = true) : Sim g st A op := by
   cases op with
@@ -467,6 +500,7 @@ theorem sim_all (g) {st A} (h : R st A) (op : Op) (hsf : op.sliceFree = true) : 
   | sl a f t => simp [Op.sliceFree] at hsf
   | cp a => exact sim_cp g h a
   | cl a c => exact sim_cl g h a c
+  | vsl o r => exact sim_vsl g h o r
   | vrem o v => exact sim_vrem g h o v
   | veq a b => exact sim_veq g h a b
   | vcon o v => exact sim_vcon g h o v
